@@ -945,8 +945,15 @@ def get_input_string(
 
         inp = files[possible_inputs[0]]
 
-        # Somehow, spurious newlines appear when reading files...
-        inp = inp[:-1] if inp.endswith("\n") else inp
+    # Files written by an editor or a shell redirection usually end with a newline that
+    # is not part of the input; files written by `isla solve -d` do not. We first try
+    # the content as it is, and then without one trailing newline.
+    inp_candidates = [inp] + (
+        [inp[:-1]]
+        if not (hasattr(args, "input_string") and args.input_string)
+        and inp.endswith("\n")
+        else []
+    )
 
     def solver():
         return ISLaSolver(grammar, constraint)
@@ -960,9 +967,16 @@ def get_input_string(
             raise SyntaxError("The given JSON input is not a derivation tree of the grammar")
         return tree
 
-    return safe(tree_from_json)().lash(
-        lambda _: safe(lambda: solver().parse(inp, skip_check=True))()
-    )
+    def parse_input() -> DerivationTree:
+        for candidate in inp_candidates[:-1]:
+            try:
+                return solver().parse(candidate, skip_check=True, silent=True)
+            except SyntaxError:
+                pass
+
+        return solver().parse(inp_candidates[-1], skip_check=True)
+
+    return safe(tree_from_json)().lash(lambda _: safe(parse_input)())
 
 
 def create_solve_parser(subparsers, stdout, stderr):
